@@ -180,7 +180,7 @@ func RuleB1(c *Ctx) {
 			continue
 		}
 		// frozen exception
-		if why, ok := b1Exceptions[fn+":"+s.what]; ok {
+		if why := b.exceptionFor(s.cs); why != "" {
 			if ok2, _ := b.discharged(s.cs, s.x, s.cs.Call, 0); ok2 {
 				sc.Holds(key, pos, "guarded")
 			} else {
@@ -196,9 +196,18 @@ func RuleB1(c *Ctx) {
 	}
 }
 
-// b1Exceptions: single-symbol frozen exceptions with their reason.
-var b1Exceptions = map[string]string{
-	"core.(*JApiCore).checkUserType:BodyErrorIndex": "second-phase re-check: every type was already Check()ed successfully in buildUserTypes, and a name taken from a library error names a schema that was added with AddType, i.e. a key of userTypes",
+// exceptionFor: the one frozen exception, by role - the self-recursive re-check keyed by a
+// type name taken from a library error (the same function T1 classifies as "culprit").
+func (b *b1) exceptionFor(cs callSite) string {
+	f := declObj(cs)
+	if f == nil {
+		return ""
+	}
+	sf := b.c.P.SSAFunc(f)
+	if sf != nil && b.c.t1RoleOf(sf) == "culprit" {
+		return "second-phase re-check: every type was already Check()ed successfully when the user types were built, and a name taken from a library error names a schema that was added with AddType, i.e. a key of userTypes"
+	}
+	return ""
 }
 
 func declObj(cs callSite) *types.Func {
